@@ -422,6 +422,11 @@ class GraphPlugin:
     def is_graph(v):
         return isinstance(v, Ref) and v.cls == GRAPH_CLS
 
+    def obj_attr(self, it, obj, name):
+        if name == '__dict__' and self.is_graph(obj):
+            return (InstanceDict(obj),)
+        return None
+
     def nx_topological_sort(self, it, ca):
         return GraphOps(it).topological_sort(ca.args[0])
 
@@ -555,6 +560,39 @@ class GraphPlugin:
         st.setf(new, 'name', st.getf(g, 'name') if st.hasf(g, 'name') else '')
         st.emit('graph_copy', src=g, new=new)
         return new
+
+
+class InstanceDict:
+    """`g.__dict__` of a graph object.  Only `a.__dict__.update(b.__dict__)` is modelled: plain attributes are rebound to
+    b's values; networkx's storage dicts (`_node`, `_adj`, `_pred`, `_succ`: the model's node / edge / attribute tables)
+    are the *same dict objects* afterwards, i.e. a and b share their nodes, edges and attribute tables from then on."""
+
+    def __init__(self, obj):
+        self.obj = obj
+
+    def sym_getattr(self, it, name):
+        if name != 'update':
+            raise Unsupported(f'__dict__.{name}')
+
+        def update(it_, ca):
+            other = ca.args[0] if ca.args else None
+            if not isinstance(other, InstanceDict):
+                raise Unsupported('__dict__.update(<not an instance dict>)')
+            st = it_.st
+            a, b = self.obj, other.obj
+            if st.getf(a, 'g_kind') != 'base' or st.getf(b, 'g_kind') != 'base':
+                raise Unsupported('__dict__.update on a graph view')
+            used(it_, NX_AX + 'a.__dict__.update(b.__dict__) makes a share b\'s storage dicts (nodes, adjacency, attributes)')
+            st.emit('write', obj=a, field='__dict__')
+            for f, val in list(st.heap[b.id].items()):
+                if f.startswith(('g_nodes', 'g_edges', 'na:', 'ea:')):
+                    st.setf(a, f, val)
+                    st.share_field(a, b, f)
+                elif f not in ('g_kind', 'g_base', '__class__'):
+                    st.setf(a, f, val)
+            st.emit('graph_storage_shared', a=a, b=b)
+            return None
+        return LibFn('__dict__.update', update)
 
 
 # ======================================================================================
